@@ -64,7 +64,7 @@ func VerifC12Arith() {
 			n1, n2, b = nd.Int64("n1"), nd.Int64("n2"), nd.Int64("b")
 		}
 	}
-	exprs := []string{"SET a = a + :n", "SET a = a - :n", "ADD a :n", "SET a = :n - a"}
+	exprs := []string{"SET a = a + :n", "SET a = a - :n", "ADD a :n", "SET a = :n - a", "SET a = :n - b", "SET a = :n + b", "SET a = a - :n, c = :n - a"}
 	k := nd.Choice("expr", len(exprs))
 	item := map[string]*types.Item{"a": vNum(n1), "b": vNum(b)}
 	li := &Language{}
@@ -75,10 +75,22 @@ func VerifC12Arith() {
 	}
 	want := n1 + n2
 	switch k {
-	case 1:
+	case 1, 6:
 		want = n1 - n2
 	case 3:
 		want = n2 - n1
+	case 4: // an operand that is an attribute of the item: it is read, not changed (b is checked below)
+		want = n2 - b
+	case 5:
+		want = n2 + b
+	}
+	if k == 6 {
+		// two actions share the placeholder and the attribute a: each right-hand side sees the values of the pre-image
+		gc, okc := int64(0), false
+		if item["c"] != nil && item["c"].N != nil {
+			gc, okc = nd.ParseInt(*item["c"].N)
+		}
+		nd.Assert(okc && gc == n2-n1, "C12-integer-arithmetic-is-exact [second action of "+exprs[k]+"]")
 	}
 	nd.Assert(item["a"] != nil && item["a"].N != nil && item["b"] != nil && item["b"].N != nil, "C12-arith-result-is-a-number")
 	got, ok := nd.ParseInt(*item["a"].N)
